@@ -32,7 +32,7 @@ def worker(a):
         mod = importlib.import_module("xfab." + modname)
         w2 = (L.TWO_PI ** 2) if L.W[modname] else 1.0
         for u in us:
-            cell0 = L.cell_from_metric(G, u)
+            cell0 = L.as_container(L.cell_from_metric(G, u), int(G[0]) + int(G[3]) + len(rec["path"]))
             rcell_metric = [x / (u * det) for x in adj]          # reciprocal metric tensor entries (no 2pi)
             cur = cell0
             rep = "cell"
@@ -46,7 +46,7 @@ def worker(a):
                 for (h, q) in rec["q"]:
                     if h == [0, 0, 0]:
                         continue
-                    s = mod.sintl(cell, h)
+                    s = mod.sintl(cell, L.as_container(h, len(v) + h[0]))
                     want = q / (4.0 * u * det)
                     if not (abs(s * s - want) <= 1e-9 * want):
                         v.append("sintl(%s)^2 = %.15g, metric gives %.15g (%s)" % (h, s * s, want, tag))
@@ -58,7 +58,10 @@ def worker(a):
                 for step in rec["path"]:
                     n += 1
                     if step == "form_a_mat":
-                        A = np.asarray(mod.form_a_mat(cur), dtype=float)
+                        A, rep_msg = L.twice(mod.form_a_mat, cur)
+                        A = np.asarray(A, dtype=float)
+                        if rep_msg:
+                            out.append(rep_msg + " (%s)" % tag)
                         if rep == "cell":
                             want = u * L.sym(G)
                             rep = "A"
@@ -76,7 +79,10 @@ def worker(a):
                                 out.append("det A = %.15g but cell_volume = %.15g (%s)" % (np.linalg.det(A), V, tag))
                         cur = A
                     elif step == "form_b_mat":
-                        B = np.asarray(mod.form_b_mat(cur), dtype=float)
+                        B, rep_msg = L.twice(mod.form_b_mat, cur)
+                        B = np.asarray(B, dtype=float)
+                        if rep_msg:
+                            out.append(rep_msg + " (%s)" % tag)
                         want = w2 * L.sym(rcell_metric)
                         if not L.upper_pos(B):
                             out.append("form_b_mat is not upper triangular with positive diagonal (%s)" % tag)
@@ -93,7 +99,10 @@ def worker(a):
                         cur, rep = B, "B"
                     elif step == "form_a_mat_inv":
                         Ai = np.asarray(mod.form_a_mat_inv(cur), dtype=float)
-                        A = np.asarray(mod.form_a_mat(cur), dtype=float)
+                        A, rep_msg = L.twice(mod.form_a_mat, cur)
+                        A = np.asarray(A, dtype=float)
+                        if rep_msg:
+                            out.append(rep_msg + " (%s)" % tag)
                         if not L.close(Ai.dot(A), np.eye(3), scale=1.0):
                             out.append("form_a_mat_inv . form_a_mat != I (%s)" % tag)
                         # independent: (A^-1)(A^-1)' = (A'A)^-1 = reciprocal metric
@@ -101,7 +110,10 @@ def worker(a):
                             out.append("form_a_mat_inv: Ainv.Ainv' differs from the reciprocal metric (%s)" % tag)
                         cur, rep = Ai, "Ainv"
                     elif step == "cell_invert":
-                        rc = list(mod.cell_invert(cur))
+                        rc, rep_msg = L.twice(mod.cell_invert, cur)
+                        rc = list(rc)
+                        if rep_msg:
+                            out.append(rep_msg + " (%s)" % tag)
                         if rep == "cell":
                             want = L.cell_from_metric(adj, 1.0 / (u * det))
                             rep = "recip"
